@@ -30,7 +30,22 @@ def date_plane(tier):
         try:
             pl = K.Plane(ylo, yhi).explore()
         except P.Unsupported as e:
-            return {"error": f"interpreter does not support the current source ({e}): Z3 kernel inconclusive", "evaluations": 0}
+            # the source uses a construct the interpreter does not support: the z3 part is INCONCLUSIVE; fall back to a
+            # concrete boundary sweep of the real functions so that the check does not pass silently
+            n, bad = K.fallback_sweep()
+            viol = []
+            for w, text, got, want in bad[:1]:
+                d = os.path.join(ROOT, "replays", "C07")
+                os.makedirs(d, exist_ok=True)
+                path = os.path.join(d, f"{tier}_fallback_0.py")
+                with open(path, "w") as f:
+                    f.write("#!/verif/.venv/bin/python\n# concrete boundary sweep (fallback): real build_list_mtime / parse_ls_date. Exit 1 = reproduced.\n"
+                            f"import sys\nsys.path.insert(0, {ROOT!r})\nfrom vlib.hlib import c07k\nw = {w!r}\ntext, got = c07k.replay_witness(w)\n"
+                            f"print(text, got, 'expected', {want!r})\nsys.exit(1 if got != {want!r} else 0)\n")
+                viol.append({"key": "date:fallback-sweep", "replay": path, "call": json.dumps(w),
+                             "what": f"fallback sweep (interpreter does not support the current source: {e}): mtime {w['mtime']} listed at {w['server_now']} as {text!r} parsed at {w['client_now']} as {got!r}, expected {want!r}"})
+            return {"violations": viol, "evaluations": n, "inconclusive": 1, "sigs": ["fallback-sweep"],
+                    "summary": f"Z3 KERNEL INCONCLUSIVE: interpreter does not support the current source ({e}); fallback concrete sweep over {n} boundary cases found {len(bad)} mismatches"}
         nv, bad = K.validate_translator(pl)
         if bad:
             return {"error": f"translator disagreement on the repository's own vectors: {bad[:2]}", "evaluations": len(pl.results)}
